@@ -447,10 +447,10 @@ class Responder():
         Service wsgi compatible application
         """
         if not self.closed and not self.ended:
-            if self.iterator is None:  # initiate application
-                self.iterator = iter(self.app(self.environ,
-                                              start_response=self.start))
             try:
+                if self.iterator is None:  # initiate application
+                    self.iterator = iter(self.app(self.environ,
+                                                  start_response=self.start))
                 msg = next(self.iterator)
             except StopIteration as ex:
                 if hasattr(ex, "value") and ex.value:
@@ -475,6 +475,15 @@ class Responder():
                                     "%s\n", ex)
             except Exception as ex:  # handle http exceptions not caught by app
                 logger.error("Unexcepted Server Error.\n%s\n", ex)
+                if not self.headed:  # nothing sent yet so respond with error
+                    msg = b'Internal Server Error'
+                    headers = [('content-type', 'text/plain'),
+                               ('content-length', str(len(msg)))]
+                    self.start("500 Internal Server Error", headers, sys.exc_info())
+                    self.write(msg)
+                    self.ended = True
+                else:  # response under way can not be completed so drop connection
+                    self.close()
             else:
                 if msg:  # only write if not empty allows async processing
                     self.write(msg)
